@@ -66,7 +66,7 @@ func vShape(r *rand.Rand) vSchema {
 	fk := func(mode byte, cols []int, t, i int) vIndex {
 		return vIndex{mode: mode, cols: cols, fk: &vFk{t, i, m()}}
 	}
-	switch r.Intn(6) {
+	switch r.Intn(8) {
 	case 0: // composite key target, composite fk
 		return vSchema{"composite", []vTable{
 			{3, []vIndex{k(0, 1)}},
@@ -88,6 +88,17 @@ func vShape(r *rand.Rand) vSchema {
 		return vSchema{"self+child", []vTable{
 			{2, []vIndex{k(0), fk('i', []int{1}, 0, 0)}},
 			{2, []vIndex{k(0), fk('i', []int{1}, 0, 0)}}}}
+	case 5: // one target key referenced through an encoded index (earlier link) AND a raw single-column key (later link)
+		return vSchema{"mixed-sources", []vTable{
+			{2, []vIndex{k(0)}},
+			{2, []vIndex{k(0), fk('i', []int{1}, 0, 0)}},
+			{2, []vIndex{fk('k', []int{0}, 0, 0)}}}}
+	case 6: // fan + chain: a cascade over several referencing rows whose last step can be refused deeper down
+		return vSchema{"fan+chain", []vTable{
+			{2, []vIndex{k(0)}},
+			{2, []vIndex{k(0), fk('i', []int{1}, 0, 0)}},
+			{2, []vIndex{fk('k', []int{0}, 0, 0)}},
+			{2, []vIndex{k(0), fk('i', []int{1}, 2, 0)}}}}
 	default: // single column
 		return vSchema{"simple", []vTable{
 			{2, []vIndex{k(0)}},
@@ -134,6 +145,22 @@ func (s vSchema) create(db *Database) {
 		}
 		db.Create(sc)
 	}
+}
+
+// vRawSafe: values with zero bytes (encoded form differs from the raw form) such that no value
+// lies in the raw range [v, v\0\0\xff…] of another one (KF-C08-2: a single-column key used as
+// foreign key source is iterated by a range on the unencoded key)
+var vRawSafe = []string{"", "", "a", "b", "\x00", "a\x00b", "\x00\x01", "c\x00"}
+
+func (s vSchema) hasRawSource() bool {
+	for _, tb := range s.tables {
+		for _, ix := range tb.idxs {
+			if ix.fk != nil && ix.mode == 'k' && len(ix.cols) == 1 {
+				return true
+			}
+		}
+	}
+	return false
 }
 
 type vRow []string
